@@ -4,6 +4,13 @@
    extracted checkers of EditSpec (valid_script_gen, canonical, alternating, kept, eq_lists) and
    an independent LCS length (plain full-table DP written here). *)
 
+(* "P <prelude> <line>" (harness/cmd/edittrace/round4.go): calls made before the case.  The model's
+   functions have no state: the prelude is dropped, the case replayed and judged as if alone. *)
+let strip_p inp =
+  match words (String.map (fun c -> if c = '_' then ' ' else c) inp) with
+  | "P" :: _ :: rest -> String.concat " " rest
+  | _ -> inp
+
 let eq_for mode : int -> int -> bool =
   if mode > 100 then (let k = mode - 100 in fun a b -> a / k = b / k)
   else if mode > 0 then (fun a b -> a mod mode = b mod mode)
@@ -123,7 +130,7 @@ let eval_l inp =
      | M.EPanic -> "PANIC index"
      | M.EOutOfFuel -> "FUEL")
 
-let eval inp = if String.length inp > 1 && inp.[0] = 'L' then eval_l inp else eval inp
+let eval inp = let inp = strip_p inp in if String.length inp > 1 && inp.[0] = 'L' then eval_l inp else eval inp
 
 (* "<edits> / <lhs> / <rhs>" *)
 let split3 out =
@@ -237,6 +244,7 @@ let spec_l (q : lline) out =
 
 let spec prop inp out =
   if prop <> "C11" then None else
+  let inp = strip_p inp in
   match parse_l inp with
   | Some q -> if q.mode >= 0 || q.mode = -4 || q.mode = -5 then spec_l q out else None
   | None ->
